@@ -29,8 +29,10 @@ class Case:
         self.monitor.append(d)
 
 
-def compare(cases, chunk=None, workers=12):
-    """Run the Lean driver on all cases' op lines (several driver processes in parallel, one chunk of cases each);
+def compare(cases, chunk=None, workers=12, view=None):
+    """`view`: optional projection applied to both the implementation's and the model's output before comparing
+    (a property whose theorems speak about part of the state compares that part).
+    Run the Lean driver on all cases' op lines (several driver processes in parallel, one chunk of cases each);
     return list of mismatches (case, op_index, line, expected, got).  Only the first mismatch per case is kept."""
     from concurrent.futures import ThreadPoolExecutor
     if not cases:
@@ -63,9 +65,10 @@ def compare(cases, chunk=None, workers=12):
                 got = out[k]
                 k += 1
                 n_ops += 1
-                if e is not None and got != e and not found:
-                    mism.append((c, i, l, e, got))
-                    found = True
+                if e is not None and not found:
+                    if (got != e) if view is None else (view(got) != view(e)):
+                        mism.append((c, i, l, e, got))
+                        found = True
     return mism, n_ops
 
 
